@@ -150,7 +150,9 @@ runtime only that the JWT library returns the header and the payload that were s
 (`hsig`), that each string decodes to the disclosure it was made from and hashes to its digest
 (`hstr`), and that no segment contains `~`.  Then the holder model accepts and returns that
 header and exactly the original claims — plus `cnf` for a bound token — with no `_sd`,
-`_sd_alg` or placeholder left. -/
+`_sd_alg` or placeholder left; and the reported path list is, up to order, exactly one entry per
+marked node: its JSON pointer (`format_path`) paired with the decoded disclosure of that node
+(`Tn.paths ""` lists (pointer, digest) of every marked node of the issued tree). -/
 theorem C01_end_to_end (rt : Rt) (mk : Nat → Option String → J → String)
     (paths : List String) (addr : List (List String × String)) (ms : MMems) (Tn : MJ)
     (ds : List SDisc) (decoys : Option (List String)) (cnf : Option MJ) (jwt : String) (header : J)
@@ -168,7 +170,9 @@ theorem C01_end_to_end (rt : Rt) (mk : Nat → Option String → J → String)
     (hnd : (strs.map (rt.hash "sha-256")).Nodup)
     (hall : ∀ e ∈ ds, ∃ s ∈ strs, rt.hash "sha-256" s = e.digest)
     (hj : '~' ∉ jwt.toList) (hs : ∀ s ∈ strs, '~' ∉ s.toList) :
-    ∃ ps, Holder.verify rt (assemble jwt strs) = .ok (header, expectedClaims ms cnf, ps) :=
+    ∃ ps, Holder.verify rt (assemble jwt strs) = .ok (header, expectedClaims ms cnf, ps) ∧
+      (ps.map (fun e => (e.1, e.2.digest))).Perm (Tn.paths "") ∧
+      (∀ e ∈ ps, ∃ s ∈ strs, fromBase64 (rt.env "sha-256") s = .ok e.2) :=
   holder_verify_issued rt mk paths addr ms Tn ds decoys cnf jwt header strs wf hplain hk1 hk2 hp h hne
     hdec hX hsig hstr hnd hall hj hs
 
@@ -202,7 +206,14 @@ def exRt : Rt where
 runtime whose JWT library returns what the issuer model produced — every hypothesis is met, and
 the holder returns the original claims -/
 example : ∃ ps, Holder.verify exRt (assemble "J" ["dg1", "dg0"]) =
-      .ok (.null, .obj [("a", .num 1 0), ("n", .arr [.str "x", .str "y"])], ps) := by
+      .ok (.null, .obj [("a", .num 1 0), ("n", .arr [.str "x", .str "y"])], ps) ∧
+      (ps.map (fun e => (e.1, e.2.digest))).Perm [("/a", "dg1"), ("/n/1", "dg0")] := by
+  suffices h : ∃ ps, Holder.verify exRt (assemble "J" ["dg1", "dg0"]) =
+      .ok (.null, .obj [("a", .num 1 0), ("n", .arr [.str "x", .str "y"])], ps) ∧
+      (ps.map (fun e => (e.1, e.2.digest))).Perm [("/a", "dg1"), ("/n/1", "dg0")] ∧
+      (∀ e ∈ ps, ∃ s ∈ ["dg1", "dg0"], fromBase64 (exRt.env "sha-256") s = .ok e.2) by
+    obtain ⟨ps, h1, h2, _⟩ := h
+    exact ⟨ps, h1, h2⟩
   have hwf : (MJ.obj exMs none).WF := by
     simp [exMs, MJ.WF, MMems.WF, MElems.WF, MMems.keysGt, MMems.marks, J.scalar]
   refine C01_end_to_end exRt exMk ["/n/1", "/a"] [(["n"], "1"), ([], "a")] exMs _ _ none none "J" .null
@@ -225,3 +236,18 @@ example : ∃ ps, Holder.verify exRt (assemble "J" ["dg1", "dg0"]) =
     rcases he with rfl | rfl
     · exact ⟨"dg0", by simp, rfl⟩
     · exact ⟨"dg1", by simp, rfl⟩
+
+/-- **The reported paths (T-restore, paths).** For every conformant tree and own disclosures in any
+order: the holder's path list pairs each decoded disclosure with the JSON pointer of the node it
+belongs to (`sound`), reports no node twice (`nodup`), and — when every marked node's disclosure
+is presented — is up to order exactly (pointer, digest) of all marked nodes (`all`). -/
+theorem C01_paths (env : Env) (T : MJ) (strs : List String) (inv : TreeInv T)
+    (hdec : ∀ s ∈ strs, ∃ d, fromBase64 env s = .ok d)
+    (hnd : (strs.map env.hash).Nodup)
+    (hacc : ∀ s ∈ strs, ∀ d, fromBase64 env s = .ok d →
+      DOk T d ∧ ∃ x, (d.digest, x) ∈ T.hiddenE ∧ d.value = x.payload) :
+    ∃ c ps L, restoreAll env T.payload strs = .ok (c, ps) ∧
+      removeAll c = T.project (fun h => strs.any (fun s => env.hash s = h)) ∧
+      (∀ d ∈ L, ∃ s ∈ strs, fromBase64 env s = .ok d) ∧
+      (∀ s ∈ strs, ∃ d ∈ L, fromBase64 env s = .ok d) ∧ PathsOK T L ps :=
+  restoreAll_paths env T strs inv hdec hnd hacc
